@@ -52,7 +52,8 @@ REQUIRED = ["trees", "length_checked", "branch_features_checked", "path_features
             "sholl_get_checked", "sholl_exact_threshold_radii", "lmeasure_tree_checked",
             "lmeasure_node_checked", "lmeasure_bif_checked", "lmeasure_branch_checked",
             "frontend_tree_checked", "frontend_population_checked", "population_padding_checked",
-            "frontend_requeried",
+            "frontend_requeried", "feature_queries_in_random_order",
+            "populations_of_trees_with_one_source",
             "single_node_trees", "root_is_tip_or_one_child", "tap_sholl_get", "tap_features_get"]
 FLOOR = {"quick": 500, "thorough": 10000}
 SHARDS = {"quick": 8, "thorough": 16}
@@ -106,24 +107,37 @@ def check_tree(ctx, case, tree, spec, ref: Ref, soma_ok: bool):
           L, L)
     ctx.count("length_checked")
 
-    # ---- branches / paths
+    # ---- branches / paths: the same evaluator objects are asked in a random order (tortuosity
+    # before length as well as after) and some questions are asked a second time at the end
     bf = BranchFeatures(tree)
-    close(ctx, "BranchFeatures.get_length", msort(bf.get_length()), msort(bl), scale)
-    close(ctx, "branch_length (front end)", msort(fe.get("branch_length")), msort(bl), scale)
     bt = [ref.tortuosity(b) for b in ref.branches]
-    close(ctx, "BranchFeatures.get_tortuosity", msort(bf.get_tortuosity()), msort(bt), 0.0)
-    close(ctx, "branch_tortuosity (front end)", msort(fe.get("branch_tortuosity")), msort(bt), 0.0)
+    pf = PathFeatures(tree)
+    pl = [ref.chain_length(p) for p in ref.paths]
+    pt = [ref.tortuosity(p) for p in ref.paths]
+    qs = [
+        lambda: close(ctx, "BranchFeatures.get_length", msort(bf.get_length()), msort(bl), scale),
+        lambda: close(ctx, "branch_length (front end)", msort(fe.get("branch_length")), msort(bl),
+                      scale),
+        lambda: close(ctx, "BranchFeatures.get_tortuosity", msort(bf.get_tortuosity()), msort(bt),
+                      0.0),
+        lambda: close(ctx, "branch_tortuosity (front end)", msort(fe.get("branch_tortuosity")),
+                      msort(bt), 0.0),
+        lambda: close(ctx, "PathFeatures.get_length", msort(pf.get_length()), msort(pl), L),
+        lambda: close(ctx, "path_length (front end)", msort(fe.get("path_length")), msort(pl), L),
+        lambda: close(ctx, "PathFeatures.get_tortuosity", msort(pf.get_tortuosity()), msort(pt),
+                      0.0),
+        lambda: close(ctx, "path_tortuosity (front end)", msort(fe.get("path_tortuosity")),
+                      msort(pt), 0.0),
+        lambda: close(ctx, "extract_feature.get('length') again", fe.get("length"), [L], L),
+    ]
+    order = [int(i) for i in rng.permutation(len(qs))]
+    for i in order + order[:4]:
+        qs[i]()
+    ctx.count("feature_queries_in_random_order", len(order) + 4)
     if bf.get_count() != len(ref.branches):
         raise Mismatch("branch-count", f"BranchFeatures.get_count = {bf.get_count()}, "
                                        f"{len(ref.branches)} branches")
     ctx.count("branch_features_checked")
-    pf = PathFeatures(tree)
-    pl = [ref.chain_length(p) for p in ref.paths]
-    pt = [ref.tortuosity(p) for p in ref.paths]
-    close(ctx, "PathFeatures.get_length", msort(pf.get_length()), msort(pl), L)
-    close(ctx, "path_length (front end)", msort(fe.get("path_length")), msort(pl), L)
-    close(ctx, "PathFeatures.get_tortuosity", msort(pf.get_tortuosity()), msort(pt), 0.0)
-    close(ctx, "path_tortuosity (front end)", msort(fe.get("path_tortuosity")), msort(pt), 0.0)
     for p in tree.get_paths()[:5]:
         ids = [int(i) for i in p.origin_id()]
         close(ctx, "Path.length", p.length(), ref.chain_length(ids), L)
@@ -331,8 +345,13 @@ def exec_population(ctx, case):
     trees, refs = [], []
     for rc in case["trees"]:
         spec = G.spec_from_recipe(rc)
-        trees.append(G.build(spec, with_tag=False, frozen_ok=True))
+        # half of the populations consist of trees that all name the same file as their origin
+        # (neurites, copies and transformed versions of one reconstruction do)
+        src = "/data/cells/neuron.swc" if case["seed"] % 2 else ""
+        trees.append(G.build(spec, with_tag=False, frozen_ok=True, source=src))
         refs.append(Ref(spec["pid"], np.stack([spec["x"], spec["y"], spec["z"]], axis=1)))
+    if case["seed"] % 2:
+        ctx.count("populations_of_trees_with_one_source")
     with warnings.catch_warnings():
         warnings.simplefilter("ignore")
         pop = Population(trees)
@@ -351,7 +370,10 @@ def exec_population(ctx, case):
         "node_branch_order": lambda r: list(r.critical_depth().values()),
     }
     try:
-        for name, fn in feats.items():
+        names = list(feats)
+        names = [names[int(i)] for i in rng.permutation(len(names))]
+        for name in names + names[:3]:  # any order; some features are asked twice
+            fn = feats[name]
             got = np.asarray(fe.get(name))
             want = [fn(r) for r in refs]
             width = max(len(w) for w in want)
